@@ -8,6 +8,7 @@ if [ -n "$(git status --porcelain --untracked-files=no)" ]; then echo "/repo is 
 git apply "$patch" || { echo "patch does not apply"; exit 2; }
 trap 'git -C /repo checkout -- . >/dev/null 2>&1' EXIT
 cd /verif
+export VERIF_EVIDENCE_DIR=/verif/.work/evidence-scratch
 for p in "$@"; do
   out=$(VERIF_SECONDS=$secs ./check "$p" quick 2>&1); rc=$?
   rules=$(echo "$out" | grep -E "^  rule=" | awk '{print $1}' | sort -u | tr '\n' ' ')
